@@ -262,3 +262,19 @@ Definition check_multi (c : cfg) (x : Z * list sub * Z * list Z) : bool :=
    only the multiset of selected elements is observable (sum of weighted elements), so compare sorted *)
 Definition check_func (c : cfg) (x : Z * sub * Z * list Z) : bool :=
   let '(n, u, kind, sel) := x in obs_eq (rmap sortZ (index c n u)) kind sel.
+
+(* ---- nested for-equations: for O in oa:ob loop for i in .. loop x[e(i)] .. -- the outer index is not used
+   in the subscript; `shadow` = the inner index reuses the outer name.  get_indexed_symbol must resolve the
+   subscript's index name to the INNERMOST loop of that name, so the outcome does not depend on `shadow` nor
+   on the outer range: the inner for-equation is generated once per outer value ---------------------------- *)
+Fixpoint repeat_app (k : nat) (l : list Z) : list Z :=
+  match k with O => [] | S k' => l ++ repeat_app k' l end.
+Definition outer_count (oa ob : Z) : nat := length (pyrange oa (ob + 1) 1).
+Definition index_nested (c : cfg) (n oa ob : Z) (u : sub) (shadow : bool) : res (list Z) :=
+  rmap (repeat_app (outer_count oa ob)) (index c n u).
+Definition modelica_nested (n oa ob : Z) (u : sub) : res (list Z) :=
+  rmap (repeat_app (outer_count oa ob)) (modelica n u).
+(* observed rows are compared as a multiset (sorted) *)
+Definition check_nested (c : cfg) (x : Z * Z * Z * sub * bool * Z * list Z) : bool :=
+  let '(n, oa, ob, u, shadow, kind, sel) := x in
+  obs_eq (rmap sortZ (index_nested c n oa ob u shadow)) kind sel.
